@@ -53,6 +53,7 @@ class VReactor(SelectReactor):
         self.chooser = chooser
         self.interrupts_left = max_interrupts
         self.ties = ties
+        self._vnow = round(self._vnow / self.GRID) * self.GRID
         self._t0 = self._vnow
         self.iterations = 0
         self.log = []
@@ -84,17 +85,21 @@ class VReactor(SelectReactor):
             raise WouldBlockForever("reactor has nothing to wait for")
         self._vnow += timeout + (SLACK if timeout > 0 else 0.0)
 
+    GRID = 0.5  # all virtual delays used by the harnesses are multiples of this
+
     def callLater(self, delay, callable, *args, **kw):
+        # Logical due time: snapped to the grid, so that the SLACK added by clock jumps and the
+        # TIE_EPS nudges of earlier calls never accumulate into later due times.
+        due = round((self._vnow + delay) / self.GRID) * self.GRID
         if self.chooser is not None and self.ties:
-            due = self._vnow + delay
             same = [c for c in self.getDelayedCalls() if abs(c.getTime() - due) < TIE_EPS * 100 and c.active()]
             if same:
                 # default: after the calls already due at that instant
                 if self.chooser.choose(("tie", round(due - self._t0, 3), len(same)), 2):
-                    delay = max(0.0, delay - TIE_EPS * (1 + len(same)))
+                    due = due - TIE_EPS * (1 + len(same))
                 else:
-                    delay = delay + TIE_EPS * len(same)
-        return SelectReactor.callLater(self, delay, callable, *args, **kw)
+                    due = due + TIE_EPS * len(same)
+        return SelectReactor.callLater(self, max(0.0, due - self._vnow), callable, *args, **kw)
 
     # -- housekeeping between executions ----------------------------------------
     def dirty(self):
